@@ -2,6 +2,8 @@
 from . import impl
 
 _CACHE = {}
+SPIN_LOG = []          # confirmed hangs in this process: (dialect, text)
+SPIN_LIMIT = 3
 
 
 def parser_for(name):
@@ -19,13 +21,27 @@ def outcome(name, text):
     """('ok', module) | ('doc', 'LexerError'|'ParseError', exc) | ('spin',) |
     ('bad', ExcName, exc).  A budget hit is re-run with a 20x budget before it
     is called a spin."""
+    if len(SPIN_LOG) > SPIN_LIMIT or impl.ABORT_FLAG.value:
+        raise impl.AbortShard()
     p, f = parser_for(name)
     f.factor = 1
     r = impl.load_outcome(p, text)
     if r[0] == "spin":
         f.factor = 20
-        r = impl.load_outcome(p, text)
+        keep = impl.WATCHDOG_S
+        impl.WATCHDOG_S = min(keep, 10.0)     # the first net already waited the full time
+        try:
+            r = impl.load_outcome(p, text)
+        finally:
+            impl.WATCHDOG_S = keep
         f.factor = 1
+        if r[0] == "spin":
+            # the tree under test does hang: do not spend half a minute on every further case
+            impl.WATCHDOG_S = min(impl.WATCHDOG_S, 4.0)
+            SPIN_LOG.append((name, text))
+            if len(SPIN_LOG) > SPIN_LIMIT:
+                impl.ABORT_FLAG.value = 1
+                raise impl.AbortShard()
     return r
 
 
@@ -37,3 +53,20 @@ def brief(r):
     if r[0] == "spin":
         return "SPIN"
     return r[1]
+
+
+def dialect_order(key, dialects=None):
+    """The order in which one input is put to the loader configurations inside a
+    process: forward for half of the inputs, reversed for the other half (a
+    deterministic function of the input), so that state leaking from one
+    configuration's classes to another's is exercised in both directions."""
+    ds = list(dialects or impl.DIALECTS)
+    h = sum(ord(c) for c in key) + len(key) if isinstance(key, str) else int(key)
+    return ds if h % 2 == 0 else list(reversed(ds))
+
+
+def run_prior(case, text):
+    """Replays only: first put the text to the configurations that saw it before in the
+    recorded process."""
+    for d in case.get("prior_dialects", []):
+        outcome(d, text)
